@@ -14,6 +14,8 @@ import (
 // pattern alphabet: chosen to collide under plausible wrong cache keys (case, prefixes, added anchors / whitespace, equal length)
 var c15Patterns = []string{
 	"^a", "^A", "a", "a ", " a", "^a$", "^ab", "^a|b", "ab", "ba", "^[a-c]+$", "^[A-C]+$", "[a-c]+", "(", "(a", "a)", "[", "^a.", "^a.*", "a$", "A$", `\d+`, `\D+`, "^.{2}$", "^.{3}$", "", "(?i)^a", "^b",
+	// invalid patterns whose offending fragment (what regexp/syntax quotes in its error) is itself a valid pattern, next to that fragment
+	"[9-0]", "9-0", "a{2,1}", "{2,1}", `a\`, "^[z-a]$", "z-a", `\8`, "x**", "**",
 }
 var c15Subjects = []string{"", "a", "A", "ab", "ba", "b", "abc", "ABC", "a ", " a", "aa", "12", "x", "Ab", "cab"}
 
@@ -40,12 +42,24 @@ func genC15(seed uint64) *Scenario {
 		pats = append(pats, pick(r, c15Patterns))
 	}
 	uid := uint32(0)
+	// swarm knob: some runs use more distinct patterns than any plausible bound of the cache (eviction paths)
+	bigCache := 0
+	if r.Chance(60) && ntasks <= 4 {
+		bigCache = pick(r, []int{40, 80, 150, 300})
+	}
 	for t := 0; t < ntasks; t++ {
 		nops := r.Range(1, 6)
 		if ntasks > 8 {
 			nops = r.Range(1, 2)
 		}
 		var ops []Op
+		if bigCache > 0 {
+			for i := 0; i < bigCache/ntasks+1; i++ {
+				uid++
+				p := fmt.Sprintf("^x{%d}y%d$", (i*ntasks+t)%7+1, i*ntasks+t)
+				ops = append(ops, Op{UID: uid, Kind: KPattern, Path: "p", Pattern: p, Str: pick(r, []string{"x", "xy0", "xxy1"}), Role: "fill"})
+			}
+		}
 		for i := 0; i < nops; i++ {
 			uid++
 			p := pick(r, pats)
